@@ -70,7 +70,8 @@ def canonPermH : Handler := fun req => do
   let impl ← field req "impl"
   let vals ← arr (← field inp "values")
   let implC ← arr (← field impl "canon")
-  let js ← vals.mapM fun v => match v with | .null => pure none | v => do pure (some (← toJ v))
+  -- a schema the model's J cannot hold (a non-integral number) has no model side; the judge still applies
+  let js : List (Option J) := vals.map fun v => match v with | .null => none | v => (toJ v).toOption
   let model := js.map fun j => match j with | some j => str (canonString j) | none => Json.null
   let ok := (model.zip implC).all fun (m, c) => m == Json.null || m == c
   let distinct := implC.eraseDups
